@@ -4,8 +4,10 @@
 #include "../engine/pbt.hpp"
 #include "../engine/gen.hpp"
 #include "../engine/guard.hpp"
+#include "../engine/statics.hpp"
 #include "goldilocks_base_field.hpp"
 #include <climits>
+#include <omp.h>
 
 using pbt::Case; using pbt::Ctx;
 typedef Goldilocks::Element E;
@@ -62,7 +64,7 @@ static void fill_input(Operand &o, const uint64_t *vals, uint64_t junk)
 }
 static uint64_t ref_op(OpK op, uint64_t a, uint64_t b) { return op == OP_COPY ? a % PR : op == OP_ADD ? ref::add(a, b) : op == OP_SUB ? ref::sub(a, b) : ref::mul(a, b); }
 
-static bool run_row(const Row &r, const Case &c, uint64_t junk, std::vector<uint64_t> &outlanes, std::string &why)
+static bool run_row(const Row &r, const Case &c, uint64_t junk, std::vector<uint64_t> &outlanes, std::string &why, bool probe_statics = false)
 {
     const int L = r.L;
     Operand A, B, C; A.k = r.A; B.k = r.B; C.k = r.C; A.L = B.L = C.L = L;
@@ -90,7 +92,13 @@ static bool run_row(const Row &r, const Case &c, uint64_t junk, std::vector<uint
 #ifdef __AVX512__
     else { t8.areg = _mm512_load_si512(la); t8.breg = _mm512_load_si512(lb); t8.creg = _mm512_load_si512(lc); }
 #endif
+    // every 8th case (second run of the row only: never the first call of a routine) the static storage of the process is checksummed
+    // right before and right after the call: a routine must not write anywhere but its designated outputs
+    static thread_local uint64_t g_static_probe = 0;
+    const bool probe = !SAN && probe_statics && ((++g_static_probe & 7) == 0); // (not in sanitizer builds: their runtime keeps bookkeeping in the executable's own data segment)
+    uint64_t cs0 = probe ? statics::checksum() : 0;
     r.call(*t);
+    if (probe && statics::checksum() != cs0) { why = "wrote to static storage of the process (a hidden buffer or memo): memory other than the designated output positions changed during the call"; return false; }
     outlanes.resize(L);
     if (C.k == K_REG) {
         if (L == 4) _mm256_store_si256((__m256i *)lc, t4.creg);
@@ -129,7 +137,7 @@ static bool body_row(const Case &c, Ctx &ctx)
     std::vector<uint64_t> o1, o2; std::string why;
     if (!run_row(r, c, c.v[P_JUNK], o1, why)) return ctx.fail(std::string(r.decl) + " [A=" + KN[r.A] + " B=" + KN[r.B] + " -> " + KN[r.C] + "] sa=" + std::to_string(c.v[P_SA]) + " sb=" + std::to_string(c.v[P_SB]) + " sc=" + std::to_string(c.v[P_SC]) + ": " + why);
     // metamorphic: different junk in the non-designated input cells must not change the result
-    if (!run_row(r, c, ~c.v[P_JUNK], o2, why)) return ctx.fail(std::string(r.decl) + ": " + why);
+    if (!run_row(r, c, ~c.v[P_JUNK], o2, why, true)) return ctx.fail(std::string(r.decl) + ": " + why);
     if (o1 != o2) return ctx.fail(std::string(r.decl) + ": result depends on input cells that its strides do not designate");
     return true;
 }
@@ -188,8 +196,17 @@ static bool body_par(const Case &c, Ctx &ctx)
     E *dstblk = (E *)malloc((size + 2 * G) * sizeof(E)), *dst = dstblk + G;
     for (uint64_t i = 0; i < size; i++) src[i].fe = pbt::mix(seed, i);
     for (uint64_t i = 0; i < size + 2 * G; i++) dstblk[i].fe = SENT + i;
+    auto call = [&]() {
     if (which == 0) { if (dflt) Goldilocks::parcpy(dst, src, size); else Goldilocks::parcpy(dst, src, size, nth); }
     else { if (dflt) Goldilocks::parSetZero(dst, size); else Goldilocks::parSetZero(dst, size, nth); }
+    };
+    // payload[4] & 2: the helper is called from inside an active parallel region (the runtime then delivers a team of one although
+    // more threads were requested -- legal for any OpenMP program; the helpers must still transfer exactly `size` elements)
+    if (c.v[4] & 2) {
+        ctx.cls("par:called-inside-parallel-region(fewer-threads-delivered)");
+#pragma omp parallel num_threads(2)
+        { if (omp_get_thread_num() == 0) call(); }
+    } else call();
     bool ok = true; std::string why;
     for (uint64_t i = 0; i < size && ok; i++) { uint64_t want = which == 0 ? pbt::mix(seed, i) : 0; if (dst[i].fe != want) { ok = false; why = std::string(which ? "parSetZero" : "parcpy") + " size=" + std::to_string(size) + " threads=" + std::to_string(nth) + ": element " + std::to_string(i) + " is " + hx(dst[i].fe) + " want " + hx(want); } }
     for (uint64_t i = 0; i < G && ok; i++) if (dstblk[i].fe != SENT + i || dstblk[G + size + i].fe != SENT + G + size + i) { ok = false; why = std::string(which ? "parSetZero" : "parcpy") + " size=" + std::to_string(size) + " threads=" + std::to_string(nth) + ": wrote outside dst[0..size)"; }
@@ -210,7 +227,7 @@ int main(int argc, char **argv)
     props.push_back({"c17.par", [] { return rc::gen::exec([] {
                          uint64_t size = *rc::gen::weightedOneOf<uint64_t>({{4, g::range(0, 70)}, {2, rc::gen::apply([](int k, int d) { return (uint64_t)((1ll << k) + d - 1 < 0 ? 0 : (1ll << k) + d - 1); }, g::irange(0, 16), g::irange(0, 2))}, {1, g::range(0, 70000)}});
                          int nth = *rc::gen::weightedOneOf<int>({{3, rc::gen::elementOf(std::vector<int>{INT_MIN, -1, 0, 1, 2, 3, 7, 64, 256})}, {2, g::irange(1, 70)}, {2, rc::gen::apply([size](int d) { long v = (long)size + d - 1; return (int)std::max<long>(-2, std::min<long>(v, 256)); }, g::irange(0, 2))}});
-                         return std::vector<uint64_t>{(uint64_t)*g::irange(0, 1), size, (uint64_t)(int64_t)nth, *g::uni64(), (uint64_t)*rc::gen::weightedElement<int>({{7, 0}, {1, 1}})}; }); },
+                         return std::vector<uint64_t>{(uint64_t)*g::irange(0, 1), size, (uint64_t)(int64_t)nth, *g::uni64(), (uint64_t)(*rc::gen::weightedElement<int>({{7, 0}, {1, 1}}) | *rc::gen::weightedElement<int>({{4, 0}, {1, 2}}))}; }); },
                      body_par, 12, false, desc_par, 100});
     return pbt::harness_main(argc, argv, "h_wrappers", props);
 }
